@@ -128,6 +128,37 @@ class DictV:
         return f'Dict{self.d!r}'
 
 
+class StrV:
+    """structured string: a sequence of literal pieces (python str) and ATOMS.  An atom is an arbitrary NON-EMPTY
+    alphanumeric token (z3 constant of sort V; no '_', '-', '.', '/' inside) -- the BIDS value grammar.  Splitting at a
+    separator outside that alphabet, prefix tests and replacement of literals containing such a separator are decided
+    structurally, for all values of the atoms."""
+    def __init__(self, parts):
+        out = []
+        for p in parts:
+            if isinstance(p, StrV):
+                ps = p.parts
+            else:
+                ps = [p]
+            for q in ps:
+                if isinstance(q, str):
+                    if not q:
+                        continue
+                    if out and isinstance(out[-1], str):
+                        out[-1] = out[-1] + q
+                    else:
+                        out.append(q)
+                else:
+                    out.append(q)
+        self.parts = out
+
+    def key(self):
+        return tuple(p if isinstance(p, str) else ('atom', str(p.z)) for p in self.parts)
+
+    def __repr__(self):
+        return 'Str<' + ''.join(p if isinstance(p, str) else '{' + str(p.z) + '}' for p in self.parts) + '>'
+
+
 class Poison:
     def __init__(self, why):
         self.why = why
